@@ -41,3 +41,31 @@ Example C14_witness_reject : scan (SrcString [97; 10; 100]) = (None, true).
 Proof. vm_compute. reflexivity. Qed.
 Example C14_witness_accept : is_set (fst (scan (SrcBytes [97; 58; 32]))) = true.
 Proof. vm_compute. reflexivity. Qed.
+
+(* ---- the encoding side of message_fields.go: no detour turns a value into another one --------------
+   [field_wf f] = "single-line when set" - what every route above produces (C14_routes_wf).  A set value
+   survives MarshalText -> UnmarshalText, any value (set or unset) survives Value -> Scan (handed back as a
+   string or as []byte) and MarshalJSON -> UnmarshalJSON (for every document [enc] that is not the null literal and
+   that encoding/json decodes back to the value); an unset value has no text form. *)
+Theorem C14_routes_wf :
+  (forall v, field_wf (fst (new_field v))) /\ (forall src, field_wf (fst (scan src))) /\
+  (forall d s, field_wf (fst (unmarshal_json d s))) /\ (forall h, field_wf (upgrade_id h)).
+Proof. exact (conj new_field_wf (conj scan_wf (conj unmarshal_json_wf upgrade_id_wf))). Qed.
+
+Theorem C14_text_roundtrip :
+  forall f, field_wf f -> is_set f = true -> exists b, marshal_text f = Some b /\ unmarshal_text b = (f, false).
+Proof. exact text_roundtrip. Qed.
+
+Theorem C14_value_scan_roundtrip :
+  forall f, field_wf f -> scan (field_value f) = (f, false) /\ scan (field_value_bytes f) = (f, false).
+Proof. exact value_scan_roundtrip. Qed.
+
+Theorem C14_json_roundtrip :
+  forall f enc, field_wf f -> (is_set f = true -> bytes_eqb enc json_null = false) ->
+  unmarshal_json (marshal_json f enc) (if is_set f then Some (value f) else None) = (f, false).
+Proof. exact json_roundtrip. Qed.
+
+Example C14_witness_roundtrip :
+  scan (field_value (fst (new_field [97; 58; 32]))) = (Some [97; 58; 32], false) /\
+  marshal_text (fst (new_field [97; 10])) = None.
+Proof. vm_compute. split; reflexivity. Qed.
